@@ -13,6 +13,7 @@ import subprocess
 from engine import Check, validate_traces, pmap, run
 import scriptgen as sg
 import regen
+from zoo import ZOO, ZOO_NAMED, zoo_files
 
 TRACE = 'SPECIFICATION TraceSpec\nCHECK_DEADLOCK FALSE\n'
 TRAILER = '''
@@ -25,28 +26,11 @@ executable('fromfound', found + ['zz.c'], includes=[hdr, inc])
 extra_dist(files=['README.md'], dirs=['docs'])
 generic_file('hidden.txt', dist=False)
 submodule('sub')
-# one use of every builtin that makes a file object out of something in srcdir
-zobj = object_file(file='zoo/o1.c')
-zobjs = object_files(['zoo/o2.c', 'zoo/o3.cpp'])
-executable('zoo1', [zobj] + zobjs + ['zoo/lexer.l'])
-zpch = precompiled_header(file='zoo/pre.h')
-executable('zoo2', [source_file('zoo/o4.c')], pch=zpch,
-           libs=[static_library('zoo/libpre.a')])
-install(man_page('zoo/tool.1', compress=False))
-copy_files(['zoo/c1.txt', generic_file('zoo/c2.txt')])
-auto_file('zoo/auto.c')
-module_def_file('zoo/x.def')
-zdir = directory('zoo/dir', include='*.dat')
-build_step('zout.txt', cmd=[R, 'Z', source_file('zoo/in.txt'), zdir])
-test(executable('zoo3', ['zoo/t.c'], includes=[header_file('zoo/t.h')]))
-'''
+''' + ZOO
 FIXED = ['build.bfg', 'options.bfg', 'sub/build.bfg', 'sub/subsrc.c',
          'listed.h', 'incdir/i1.h', 'extra/e1.c', 'extra/e2.c',
          'extra/notes.md', 'plat/p_linux.c', 'plat/p_windows.c', 'zz.c',
-         'README.md', 'nc/n1.txt', 'nc/n.md'] + ['zoo/' + x for x in (
-             'o1.c', 'o2.c', 'o3.cpp', 'lexer.l', 'pre.h', 'o4.c',
-             'libpre.a', 'tool.1', 'c1.txt', 'c2.txt', 'auto.c', 'x.def',
-             'dir/a.dat', 'in.txt', 't.c', 't.h')]
+         'README.md', 'nc/n1.txt', 'nc/n.md'] + ZOO_NAMED
 NODIST = ['hidden.txt']
 
 
@@ -66,17 +50,7 @@ def files_for(decls):
     f['plat/p_windows.c'] = 'int pw;\n'
     f['nc/n1.txt'] = 'n\n'
     f['nc/n.md'] = 'n\n'
-    for z in ('o1.c', 'o2.c', 'o3.cpp', 'o4.c', 'auto.c', 't.c'):
-        f['zoo/' + z] = 'int %s;\n' % z.split('.')[0]
-    f['zoo/lexer.l'] = '%%\n%%\n'
-    f['zoo/parser.y'] = '%%\nstart: ;\n%%\n'
-    f['zoo/pre.h'] = '#define PRE 1\n'
-    f['zoo/t.h'] = '#define T 1\n'
-    f['zoo/libpre.a'] = '!<arch>\n'
-    f['zoo/tool.1'] = '.TH tool 1\n'
-    for z in ('c1.txt', 'c2.txt', 'x.def', 'in.txt', 'dir/a.dat',
-              'dir/skip.me'):
-        f['zoo/' + z] = 'z\n'
+    f.update(zoo_files())
     f['zz.c'] = 'int main(void){return 0;}\n'
     f['README.md'] = 'r\n'
     f['docs/d.txt'] = 'd\n'
